@@ -40,6 +40,17 @@ Theorem C18_sha1_padding :
       (length message mod 64 = 0)%nat.
 Proof. exact sha1_padding. Qed.
 
+(* The §4 padding of the specification is well defined for EVERY bit string (not only whole octets): the number of
+   "0"s is the least k with l + 1 + k = 448 (mod 512) — the `None` branch of zero_count is dead — and the padded
+   message is a whole number of 512-bit blocks. *)
+Theorem C18_sha1_spec_padding_well_defined :
+  forall msg : list bool,
+    let l := N.of_nat (length msg) in
+    let k := zero_count l in
+    k < 512 /\ (l + 1 + k) mod 512 = 448 /\ (forall j, j < k -> (l + 1 + j) mod 512 <> 448) /\
+    N.of_nat (length (pad_bits msg)) mod 512 = 0.
+Proof. exact spec_padding_well_defined. Qed.
+
 (* RFC 3174 §7.3 test vectors (TEST1 "abc", TEST2 the 56-byte message) and the empty message, evaluated on the
    SPECIFICATION (so the spec is not a copy of the model), and the model on the same inputs. *)
 Definition test2 : list N :=
@@ -71,5 +82,6 @@ Print Assumptions C18_sha1_overflow_boundary.
 Print Assumptions C18_sha1_output_20_bytes.
 Print Assumptions C18_sha1_schedule_ignores_stale_words.
 Print Assumptions C18_sha1_padding.
+Print Assumptions C18_sha1_spec_padding_well_defined.
 Print Assumptions C18_sha1_rfc_vectors_spec.
 Print Assumptions C18_sha1_rfc_vectors_model.
